@@ -599,3 +599,5 @@ from obligations import c17 as _c17
 obligation('C07', 'C07-6a receiver: SequencerBlock::try_from_raw accepts only after the rollup-transactions root, every rollup\'s transactions and the rollup ids were shown to be included under the data hash (= C17-3a)')(_c17.must_verify('SequencerBlock'))
 obligation('C07', 'C07-6b receiver: FilteredSequencerBlock::try_from_raw accepts only after the root proof, EVERY served rollup\'s transactions against that root and the rollup ids were checked (= C17-3b)')(_c17.must_verify('FilteredSequencerBlock'))
 obligation('C07', 'C07-6c receiver: SubmittedMetadata::try_from_raw (Celestia) accepts only after both proofs verified under the data hash (= C17-3c)')(_c17.must_verify('SubmittedMetadata'))
+from obligations import c09 as _c09
+obligation('C07', 'C07-7 receiver (conductor): rollup data is attached only to the header with its block hash and only under a passing Merkle audit against that header\'s rollup-data root (= C09-4)')(_c09.c09_4)
